@@ -10,6 +10,10 @@ assert os.path.realpath(bumpver.__file__).startswith(os.path.realpath(os.environ
 
 PINNED_TODAY = dt.date(2026, 9, 30)
 bv_version.TODAY = PINNED_TODAY
+# bumpver calls logging.basicConfig on every command; pre-install a handler so that it never binds a
+# (later closed) CliRunner stream, and keep everything silent unless a check captures it explicitly.
+logging.basicConfig(handlers=[logging.NullHandler()])
+logging.raiseExceptions = False
 logging.disable(logging.CRITICAL)
 
 
